@@ -29,6 +29,7 @@ class Program:
         self.compile = None        # (rc, diags)
         self.findings = []
         self.stats = {}
+        self.excl = {}
         self.expected = refmap.expected_structs(ss)
         self.by_comp = {id(e["comp"]): e for e in self.expected}
         self.located = {}
@@ -413,6 +414,7 @@ def check_generic(prop, tier, cfgs, n_quick, n_thorough, sigfun, stages, level="
         feature_counts = {}
         rule_counts = {}
         stats = {}
+        excl_classes = {}
         samples = []
         for p in progs:
             if p.inconclusive:
@@ -429,6 +431,10 @@ def check_generic(prop, tier, cfgs, n_quick, n_thorough, sigfun, stages, level="
                 feature_counts[ft] = feature_counts.get(ft, 0) + 1
             for k, x in p.stats.items():
                 stats[k] = stats.get(k, 0) + x
+            for k, d in p.excl.items():
+                for cls, n in d.items():
+                    excl_classes.setdefault(k, {})
+                    excl_classes[k][cls] = excl_classes[k].get(cls, 0) + n
             for f in p.findings:
                 rule_counts[f["rule"]] = rule_counts.get(f["rule"], 0) + 1
                 sig = sigfun(f)
@@ -450,6 +456,8 @@ def check_generic(prop, tier, cfgs, n_quick, n_thorough, sigfun, stages, level="
             "model_features_seen": feature_counts, "finding_rules_seen": rule_counts, "samples": samples,
         }
         cov.update(stats)
+        if excl_classes:
+            cov["exclusion_classes"] = excl_classes
         if extra_cov:
             cov.update(extra_cov(progs))
         if len(incon) > len(progs) * 0.1:
@@ -491,5 +499,272 @@ def run(prop, tier):
             "mapping; (b) typed probe: one struct literal per expected struct, each member initialised through is::<ExpectedType>(..), "
             "compiled with rustc — E0308 on a member's line is a type deviation. Non-trivial = programs with >= 1 struct compared"),
             nontrivial=lambda p: p.stats.get("structs_compared", 0) > 0)
+    elif prop in ("C03", "C04"):
+        sigf = sig_c03 if prop == "C03" else sig_c04
+        check_generic(prop, tier, core_cfgs(q)[:3], 24, 600, sigf, ["static", "probe", stage_runtime], rule=(
+            "generator as C01 (XSD profiles); for every complex type and anonymous global element up to 4 sampled values "
+            "(minimal / full / many / boundary) are built as Rust literals of the emitted types and of independently written "
+            "reference structs, serialized, deserialized from 5 independently rendered instance styles, re-serialized; all XML "
+            "is compared as namespace-aware infosets (expat) with the expected infoset of the abstract value. A deviation that the "
+            "reference structs show as well is attributed to the yaserde runtime and excluded (counted under excluded:*). "
+            "Non-trivial = programs with >= 1 value run"),
+            nontrivial=lambda p: p.stats.get("runtime_cases", 0) > 0)
     else:
         raise Inconclusive(f"no check registered for {prop}")
+
+
+# ------------------------------------------------------------------------------------------------ run-time stage (C03/C04)
+
+def stage_runtime(p, values_per_struct=4, with_docs=True):
+    """Build values of every root type in g and in the reference structs r, serialize, deserialize instance documents
+    in several styles, and record findings for C03 (wire conformance) and C04 (lossless reading, fixpoint)."""
+    from . import driver, instance, sample
+    p.refemit = driver.RefEmit(p)
+    glit = driver.GLit(p)
+    # a struct whose probe showed a type deviation is not constructed (C02 reports it)
+    for f in p.findings:
+        if f["rule"] == "member-type":
+            for e in p.expected:
+                if e["xml"] == f["struct"]:
+                    e["type_deviation"] = True
+    r = rng("values", p.label)
+    sampler = sample.Sampler(r)
+    cases = []
+    meta = {}
+    unbuildable = 0
+    for e in p.expected:
+        if e["members"] is None:
+            continue
+        comp = e["comp"]
+        for k, v in enumerate(sampler.values_for(comp, values_per_struct)):
+            cid = f"v{len(cases)}"
+            constrained = e["kind"] == "anon-element"
+            tree = instance.expected_tree(p.ss, v, (e["uri"], e["xml"]))
+            if not constrained:
+                tree.origin = "root-unconstrained"
+            docs = [instance.render(tree, st, rng("doc", p.label, cid, st)) for st in instance.STYLES] if with_docs else []
+            try:
+                g_lit = glit.literal(v)
+            except driver.GLit.Unbuildable:
+                unbuildable += 1
+                continue
+            r_lit = p.refemit.literal(v)
+            docs_src = ", ".join(driver.rust_str(d) for d in docs)
+            fn = (f"fn case_{cid}() {{\n    let docs: [&str; {len(docs)}] = [{docs_src}];\n"
+                  f"    {{ let rv = {r_lit}; run_case({driver.rust_str(cid)}, \"r\", &rv, &docs); }}\n"
+                  f"    {{ let v = {g_lit}; run_case({driver.rust_str(cid)}, \"g\", &v, &docs); run_check({driver.rust_str(cid)}, &v); }}\n"
+                  f"    emit(format!(\"{{{{\\\"ev\\\":\\\"case-done\\\",\\\"id\\\":{{}}}}}}\", js({driver.rust_str(cid)})));\n}}\n")
+            cases.append((cid, fn))
+            meta[cid] = {"entry": e, "value": v, "tree": tree, "docs": docs, "constrained": constrained}
+    p.stats["values_unbuildable"] = unbuildable
+    p.stats["values_built"] = len(cases)
+    if not cases:
+        return
+    events, hung, diags = driver.build_and_run(p, cases)
+    if diags is not None:
+        p.inconclusive = f"driver does not compile: {diags[:2]}"
+        return
+    by = {}
+    for ev in events:
+        if "id" in ev:
+            by.setdefault((ev["id"], ev.get("side", "g")), []).append(ev)
+    for h in hung:
+        m = meta.get(h["id"])
+        if h["side"] == "r":
+            p.stats["excluded:reference-" + h["how"].split()[0]] = p.stats.get("excluded:reference-" + h["how"].split()[0], 0) + 1
+        else:
+            p.finding("runtime-hang" if h["how"] == "hang" else "runtime-crash", struct=m["entry"]["xml"] if m else "?", how=h["how"],
+                      stderr=h.get("stderr", ""))
+    p.stats["runtime_cases"] = 0
+    counters = p.stats
+
+    def bump(k, n=1, example=None):
+        counters[k] = counters.get(k, 0) + n
+        if example is not None:
+            import re as _re
+            cls = _re.sub(r"[^ ]+ is a required field of [^ ]+", "<member> is a required field of <struct>", str(example))
+            cls = _re.sub(r"\d+", "N", cls)[:100]
+            p.excl.setdefault(k, {})
+            p.excl[k][cls] = p.excl[k].get(cls, 0) + 1
+
+    def diffs_of(text, tree):
+        try:
+            act = instance.parse(text)
+        except instance.ParseError as e:
+            return [{"kind": "not-wellformed", "reason": str(e).split(":")[0], "detail": str(e)}]
+        return instance.compare(tree, act)
+
+    def dclass(d):
+        o = d.get("origin")
+        return (d["kind"], tuple(o) if isinstance(o, (list, tuple)) else o, d.get("builtin"), d.get("reason"))
+
+    for cid, m in meta.items():
+        ge = {e["ev"] + (str(e.get("doc", ""))): e for e in by.get((cid, "g"), [])}
+        re_ = {e["ev"] + (str(e.get("doc", ""))): e for e in by.get((cid, "r"), [])}
+        if "end" not in ge or "end" not in re_:
+            continue
+        bump("runtime_cases")
+        e = m["entry"]
+        tree = m["tree"]
+        # ---- C03: serialization
+        gs, rs_ = ge.get("ser"), re_.get("ser")
+        r_diffs = set()
+        if rs_ and rs_["ok"]:
+            r_diffs = {dclass(d) for d in diffs_of(rs_["text"], tree)}
+        if gs is None:
+            continue
+        if not gs["ok"]:
+            if rs_ and not rs_["ok"]:
+                bump("excluded:ser-error-in-reference-too")
+            else:
+                p.finding("ser-error", struct=e["xml"], err=gs.get("err"))
+        else:
+            gd = diffs_of(gs["text"], tree)
+            bump("c03_values_compared")
+            bump("c03_elements_compared", gs["text"].count("</") + gs["text"].count("/>"))
+            for d in gd:
+                if dclass(d) in r_diffs:
+                    bump("excluded:ser-" + d["kind"], example=d.get("kind"))
+                    continue
+                p.finding("wire", struct=e["xml"], diff=d, xml=gs["text"][:600], constrained=m["constrained"])
+        # ---- C04: fixpoint
+        gf, rf = ge.get("fix"), re_.get("fix")
+        if gf is not None:
+            bump("c04_fixpoints")
+            r_bad = rf is not None and (not rf.get("de_ok") or (rs_ and rf.get("text") != rs_.get("text")))
+            if not gf.get("de_ok"):
+                if rf is not None and not rf.get("de_ok") and _err_class(rf.get("err")) == _err_class(gf.get("err")):
+                    bump("excluded:fixpoint-de-error-in-reference-too", example=gf.get("err"))
+                else:
+                    p.finding("fixpoint-de-error", struct=e["xml"], err=gf.get("err"), xml=(gs.get("text") or "")[:400],
+                              features=_value_features(m["value"]))
+            elif gf.get("text") != gs.get("text"):
+                if r_bad:
+                    bump("excluded:fixpoint-differs-in-reference-too")
+                else:
+                    p.finding("fixpoint-differs", struct=e["xml"], first=gs.get("text", "")[:400], second=(gf.get("text") or "")[:400],
+                              features=_value_features(m["value"]))
+        # ---- C04: instance documents
+        for j, doc in enumerate(m["docs"]):
+            gd_, rd_ = ge.get(f"de{j}"), re_.get(f"de{j}")
+            if gd_ is None:
+                continue
+            bump("c04_documents")
+            style = instance.STYLES[j]
+            if not gd_["de_ok"]:
+                if rd_ is not None and not rd_["de_ok"] and _err_class(rd_.get("err")) == _err_class(gd_.get("err")):
+                    bump("excluded:de-error-in-reference-too", example=gd_.get("err"))
+                else:
+                    p.finding("de-error", struct=e["xml"], style=style, err=gd_.get("err"), doc=doc[:600],
+                              features=_value_features(m["value"]))
+                continue
+            if not gd_.get("debug_eq"):
+                # reference: compare its own Debug round trip
+                if rd_ is not None and rd_.get("de_ok") and not rd_.get("debug_eq"):
+                    bump("excluded:debug-mismatch-in-reference-too")
+                else:
+                    p.finding("debug-mismatch", struct=e["xml"], style=style, expected=(ge.get("fix") or {}).get("debug", "")[:400],
+                              actual=gd_.get("debug2", "")[:400], doc=doc[:400], features=_value_features(m["value"]))
+                continue
+            if gd_.get("ok"):
+                rr = set()
+                if rd_ is not None and rd_.get("de_ok") and rd_.get("ok"):
+                    rr = {dclass(d) for d in diffs_of(rd_["text"], tree)}
+                for d in diffs_of(gd_["text"], tree):
+                    if dclass(d) in rr or dclass(d) in r_diffs:
+                        bump("excluded:reser-" + d["kind"])
+                        continue
+                    p.finding("reser-infoset", struct=e["xml"], style=style, diff=d, features=_value_features(m["value"]))
+        gc = ge.get("check")
+        if gc is not None:
+            bump("checks_run")
+            if not gc["ok"]:
+                # every sampled value is schema-valid, so the restriction check must pass
+                p.finding("check-spurious", struct=e["xml"], err=gc.get("err"))
+
+
+def _err_class(e):
+    import re
+    e = re.sub(r"[^ ]+ is a required field of [^ ]+", "<member> is a required field of <struct>", str(e or ""))
+    e = re.sub(r"bad namespace for [^,]+, found .*", "bad namespace for <name>, found <uri>", e)
+    return re.sub(r"\d+", "N", e)[:100]
+
+
+def _value_features(v):
+    """Abstract features of a value (signature vocabulary for C04)."""
+    feats = set()
+    if v[0] != "c":
+        return []
+    for m, x in zip(gen.flat_members(v[1]), v[2]):
+        if m["position"] == "choice":
+            feats.add("choice-branch-" + ("present" if x not in (None, []) else "absent"))
+        if isinstance(x, list) and len(x) > 1:
+            feats.add("repeated>1")
+        if isinstance(x, list) and len(x) == 0 and m["repeated"]:
+            feats.add("repeated-empty")
+        if x is None and m["optional"]:
+            feats.add("optional-absent")
+        if m["decl_file"] != v[1].file:
+            feats.add("foreign-namespace-member")
+        if m.get("inherited"):
+            feats.add("inherited-member")
+        items = x if isinstance(x, list) else ([x] if x is not None else [])
+        for it in items:
+            if it[0] == "s":
+                feats.add("simple-type-member" + ("-derived" if not it[1].base.builtin else ""))
+            if it[0] == "c":
+                feats.add("nested-struct")
+            if it[0] in ("b", "s") and (it[3] if it[0] == "b" else it[2]) == "":
+                feats.add("empty-text")
+    return sorted(feats)
+
+
+def sig_c03(f):
+    r = f["rule"]
+    if r == "ser-error":
+        return "C03|ser-error"
+    if r == "wire":
+        d = f["diff"]
+        o = d.get("origin")
+        pos = "/".join(str(x) for x in o) if isinstance(o, (list, tuple)) else str(o)
+        k = d["kind"]
+        if k == "not-wellformed":
+            return f"C03|not-wellformed|reason={d.get('reason')}"
+        if k == "attribute-qualified":
+            return "C03|attribute-qname|expected=unqualified|actual=qualified"
+        if k in ("element-namespace", "element-local-name"):
+            return f"C03|element-qname|part={'ns' if k == 'element-namespace' else 'local'}|member={pos}"
+        if k == "lexical":
+            return f"C03|lexical|builtin={d.get('builtin')}"
+        if k == "attribute-value":
+            markup = any(ch in (d.get("expected") or "") for ch in "<>&\"'")
+            return f"C03|attribute-value|attribute-type={d.get('builtin') or 'named-simple-type'}|value-has-markup-characters={markup}"
+        if k.startswith("attribute-"):
+            return f"C03|{k}"
+        return f"C03|{k}|member={pos}"
+    if r in ("runtime-hang", "runtime-crash"):
+        return f"C03|{r}"
+    return None
+
+
+def sig_c04(f):
+    import re
+    r = f["rule"]
+    if r in ("de-error", "fixpoint-de-error"):
+        err = f.get("err") or ""
+        err = re.sub(r"[^ ]+ is a required field of [^ ]+", "<member> is a required field of <struct>", err)
+        err = re.sub(r"bad namespace for [^,]+, found .*", "bad namespace for <name>, found <uri>", err)
+        err = re.sub(r"\d+", "N", err)[:80]
+        return f"C04|{r}|err={err}"
+    if r == "debug-mismatch":
+        return "C04|debug-mismatch"
+    if r == "reser-infoset":
+        d = f["diff"]
+        o = d.get("origin")
+        pos = "/".join(str(x) for x in o) if isinstance(o, (list, tuple)) else str(o)
+        return f"C04|reser-infoset|kind={d['kind']}|member={pos}"
+    if r == "fixpoint-differs":
+        return "C04|fixpoint-differs"
+    if r in ("runtime-hang", "runtime-crash"):
+        return f"C04|{r}"
+    return None
